@@ -424,6 +424,26 @@ Definition set_params (s : state) (P' : list aparam) : state :=
   mkSt P' (st_contracts s) (st_queue s) (st_bank s) (st_supply s) (st_assets s) (st_prev s)
        (st_height s) (st_time s) (st_log s) (st_win s).
 
+(** ** A parameter change is COMPATIBLE with the current usage (decidable; used as a hypothesis of the
+    theorems and by the checker's per-case guard, not by [exec]): the supported denoms stay the same and,
+    for every asset with a supply record, current + incoming <= new limit, outgoing <= current, for a
+    time-limited asset time-limited supply + incoming <= new time-based limit and the time-limited supply
+    is the window ghost *)
+Definition lim_ok_b (p : aparam) (a : asup) : bool :=
+  (as_cur a + as_in a <=? ap_limit p) && (as_out a <=? as_cur a) && (0 <=? as_tlc a)
+  && (negb (ap_tl p) || (as_tlc a + as_in a <=? ap_tbl p)).
+
+Definition has_param (P : list aparam) (d : denom) : bool := match get_param P d with Some _ => true | None => false end.
+
+Definition compat_b (s : state) (P' : list aparam) : bool :=
+  forallb (fun p => has_param P' (ap_denom p)) (st_params s)
+  && forallb (fun p' => has_param (st_params s) (ap_denom p')) P'
+  && forallb (fun p' => match get (ap_denom p') (st_assets s) with
+                        | Some a => lim_ok_b p' a && (negb (ap_tl p') || (as_tlc a =? sup_of (st_win s) (ap_denom p')))
+                        | None => true
+                        end) P'.
+
+
 (** ** Histories *)
 Inductive op :=
 | Create (m : create_msg)
